@@ -25,6 +25,8 @@ def parseTargets (e : Sexp) : Option (List Target) :=
   | .list ts => ts.mapM fun t =>
       match t with
       | .list [.atom q, n] => do pure { qual := (← parseQual q), name := nameL (← n.asText?) }
+      -- the third element names the assigned value; the decision does not depend on it
+      | .list [.atom q, n, _] => do pure { qual := (← parseQual q), name := nameL (← n.asText?) }
       | _ => none
   | _ => none
 
@@ -155,6 +157,7 @@ def oracle (req out : Sexp) : String :=
         let all := (rows.filter fun (_, _, p) => r.idxs.contains p).map fun (k, o, _) => ({ key := k, env := rowEnv tab k o } : Row)
         if n.asNat? == some (matching c all) then "ok" else "viol affected-rows-differ-from-single-database"
       | .atom "panic" => "viol planner-panic"
+      | .list [.atom "not-a-shard-plan"] => "viol sharded-statement-not-planned-as-sharded"
       | _ => "viol unexpected-output"
     | _, _, _ => "bad-input"
   | _ => "bad-request"
